@@ -116,12 +116,15 @@ def modMeta (s : MState) (key : Bytes) (f : Meta → Meta) : MState :=
 def delKey (s : MState) (key : Bytes) : MState :=
   { s with index := AList.erase s.index key, held := s.held.filter (·.1 ≠ key) }
 
-/-- `m.Lock()` on an indexed record: a second lock by the same call self-deadlocks -/
+/-- `lockKey` on an indexed record: a record this call already write-locked is reused; asking for
+    a write lock on a record the call holds for reading can never be granted (self-deadlock) -/
 def lockW (s : MState) (key : Bytes) : MState :=
-  if s.held.any (·.1 = key) then { s with hung := true } else { s with held := (key, true) :: s.held }
-/-- `m.RLock()`: re-entrant for read locks, deadlocks behind the call's own write lock -/
+  if s.held.any (fun h => h.1 = key ∧ h.2) then s
+  else if s.held.any (·.1 = key) then { s with hung := true }
+  else { s with held := (key, true) :: s.held }
+/-- `rLockKey`: a record the call already holds (either way) is reused -/
 def lockR (s : MState) (key : Bytes) : MState :=
-  if s.held.any (fun h => h.1 = key ∧ h.2) then { s with hung := true } else { s with held := (key, false) :: s.held }
+  if s.held.any (·.1 = key) then s else { s with held := (key, false) :: s.held }
 
 /-- `newKey(m, key, newFn)` with a constructor: (re)initialise the record and publish it -/
 def newKeyWith (s : MState) (key : Bytes) (old : Option Meta) (v : Val) : MState :=
